@@ -80,7 +80,7 @@ def report_a_failures(run, fails, bounded=()):
         hit = None
         for bd in bounded:
             for (ic, case, res, function, oname) in bd.failures:
-                if function and (function == fn or function in fn or fn in function):
+                if function and (function == fn or (len(function) > 6 and function in fn)):
                     hit = (case, res, oname)
                     break
             if hit:
@@ -92,3 +92,40 @@ def report_a_failures(run, fails, bounded=()):
         else:
             run.violation(nm, 'all-inputs', dict(obligation=nm, solver=detail), found_input=False,
                           what='engine-A obligation refuted; the bounded oracle of this function found no failing input')
+
+
+def unique_inverse_model(E, col):
+    """spec of util.data_utils.get_unique_inverse: (distinct values in order of first appearance, index of each
+    entry's value in that list).  Verified against the real function by the bounded oracle K8 (exhaustive small)."""
+    from vf.pyvc.core import ufunc, boxI
+    ct = E.toV(col)
+    n = ufunc('nunique', 1, 'int')(ct)
+    E.fact(n >= 0)
+    el = ufunc('first_appearance_elem', 2)
+    values = SeqV(length=n, elem=lambda i: SV(el(ct, boxI(i)), 'val', tag='scalar'), kind='array',
+                  term=ufunc('unique_in_order_of_first_appearance', 1)(ct))
+    inverse = E.app('inverse_index_of_first_appearance', [col], tag='ndarray')
+    return values, inverse
+
+
+def install_dataset(E):
+    def meas(E, obj, name):
+        v = E.app('attr.measurements', [obj], tag='ndarray')
+        n_obs = E.getattr(obj, 'n_obs')
+        n_ch = E.getattr(obj, 'n_channel')
+        v.shape = (n_obs.z, n_ch.z)
+        return v
+    E.schemas['Dataset'] = {
+        'n_obs': 'int', 'n_channel': 'int', 'measurements': meas,
+        'obs_descriptors': descdict('n_obs'), 'channel_descriptors': descdict('n_channel'),
+        'descriptors': 'obj:DescDict',
+    }
+    from vf.pyvc.core import Contract
+    E.contracts['rsatoolbox.util.data_utils.get_unique_inverse'] = Contract(
+        'rsatoolbox.util.data_utils.get_unique_inverse',
+        define=lambda E, array: unique_inverse_model(E, array),
+        doc='values in order of first appearance + inverse index (bounded oracle K8)')
+
+    def dd_contains(E, d, key):
+        return True
+    E.methods[('DescDict', '__contains__')] = dd_contains
